@@ -11,18 +11,21 @@ pub mod c06;
 pub mod c07;
 pub mod c08;
 pub mod c09;
+pub mod c10;
 pub mod c11;
 pub mod c12;
 pub mod c13;
 pub mod c14;
 pub mod c15;
 pub mod c16;
+pub mod c17;
+pub mod c18;
 pub mod c19;
 pub mod common;
 pub mod c20;
 
 pub fn implemented(id: &str) -> bool {
-    matches!(id, "C01" | "C02" | "C03" | "C04" | "C05" | "C06" | "C07" | "C08" | "C09" | "C11" | "C12" | "C13" | "C14" | "C15" | "C16" | "C19" | "C20")
+    matches!(id, "C01" | "C02" | "C03" | "C04" | "C05" | "C06" | "C07" | "C08" | "C09" | "C10" | "C11" | "C12" | "C13" | "C14" | "C15" | "C16" | "C17" | "C18" | "C19" | "C20")
 }
 
 pub fn run(id: &str, ctx: &mut Ctx) {
@@ -36,12 +39,15 @@ pub fn run(id: &str, ctx: &mut Ctx) {
         "C07" => c07::run(ctx),
         "C08" => c08::run(ctx),
         "C09" => c09::run(ctx),
+        "C10" => c10::run(ctx),
         "C11" => c11::run(ctx),
         "C12" => c12::run(ctx),
         "C13" => c13::run(ctx),
         "C14" => c14::run(ctx),
         "C15" => c15::run(ctx),
         "C16" => c16::run(ctx),
+        "C17" => c17::run(ctx),
+        "C18" => c18::run(ctx),
         "C19" => c19::run(ctx),
         "C20" => c20::run(ctx),
         _ => panic!("property {id} has no check"),
